@@ -12,7 +12,8 @@ RULE = ("every named gate and all 24 C(k) at every placement for N<=2 on all ope
         "and directly built layers, compiled and not; non-trivial = the gate/circuit is not the identity on the input")
 ASSUMPTIONS = ["inputs compared bitwise on (gs, ps mod 4, r, cs)", "circuits are recompiled after compose"]
 REQUIRED_SUBS = ["bf.CliffordCircuit.built.none", "bf.CliffordCircuit.*.circuit", "fb.CliffordCircuit.*.circuit", "bf.CliffordCircuit.*.layers",
-                 "bf.Circuit.*", "gate.gen", "gate.fmap", "gate.bmap", "gate.named", "layer.*", "named.*"]
+                 "bf.Circuit.*", "gate.gen", "gate.fmap", "gate.bmap", "gate.named", "layer.*", "named.*",
+                 "gate.live.fmap", "gate.live.bmap", "gate.live.regen.*", "gate.live.value"]
 
 
 def shards(tier):
@@ -26,6 +27,9 @@ def shards(tier):
     for k in range(4 if q else 10):
         out.append({"name": "prog.np.jit.%d" % k, "mode": "jit", "backend": "np", "fn": "progs", "n": 50 if q else 1200})
     out.append({"name": "forms.np.jit", "mode": "jit", "backend": "np", "fn": "progs", "n": 20 if q else 1000, "forms": 1})
+    out.append({"name": "live.np.jit", "mode": "jit", "backend": "np", "fn": "live", "n": 150 if q else 6000})
+    out.append({"name": "live.np.interp", "mode": "interp", "backend": "np", "fn": "live", "n": 40 if q else 1000})
+    out.append({"name": "live.torch", "mode": "jit", "backend": "torch", "fn": "live", "n": 40 if q else 1500})
     out.append({"name": "big.np.jit", "mode": "jit", "backend": "np", "fn": "big", "n": 2 if q else 40})
     out.append({"name": "big.torch", "mode": "jit", "backend": "torch", "fn": "big", "n": 1 if q else 8})
     return out
@@ -186,3 +190,100 @@ def run_big(shard, rec, B):
                             continue
                         for item in items:
                             roundtrip(rec, B, sub, res[0], item, dict(desc, config=sub), True)
+
+
+def _forward_value(rec, B, g, N, fmap, rng, desc):
+    """forward of the gate on a fresh list against the oracle map (so that a stale direction is attributed, not only the mismatch)."""
+    L = int(rng.integers(2, 7))
+    gs, ps = gen.rand_list(rng, L, N), rng.integers(0, 4, L)
+    A = B.PauliList(gs.copy(), ps.copy())
+    ok, _ = rec.attempt("gate.live.value", desc, lambda: g.forward(A))
+    if ok:
+        ag, ap = B.gsps(A)
+        eg, ep = O.map_image_list(fmap[0], fmap[1], gs, ps)
+        rec.check("gate.live.value", np.array_equal(ag, eg) and np.array_equal(ap, ep), desc, True,
+                  expected=[O.show(a, b) for a, b in zip(eg, ep)], observed=[O.show(a, b) for a, b in zip(ag, ap)])
+
+
+def run_live(shard, rec, B):
+    """gates whose defining objects (map, generator) have a history of their own: queried and edited in place before they reach
+    the gate, or replaced on a gate that has already run in both directions."""
+    rng = gen.rng_for(rec)
+    C = B.circuit
+    for t in range(shard["n"]):
+        N = int(rng.integers(2, 6))
+        n = int(rng.integers(1, min(N, 3) + 1))
+        qubits = gen.rand_subset(rng, N, n)
+        ins = CC.inputs(B, N, rng, kinds=("list", "state", "pauli", "poly"))
+        # --- a map that was queried and then edited in place (rotate_by / transform_by keep it a valid map)
+        mg, mp = O.random_map(rng, n)
+        m = B.Map(mg.copy(), mp.copy())
+        hist = []
+        ok, _ = rec.attempt("gate.live.map_history", [n, t], lambda: (m.inverse(), m.inverse().inverse(), m.copy(), m.compose(m.inverse())))
+        cur = (mg, mp % 4)
+        for e in range(int(rng.integers(1, 4))):
+            if rng.integers(2):
+                G, PG = gen.rand_nonid(rng, n), 2 * int(rng.integers(2))
+                ok, _ = rec.attempt("gate.live.map_history", [n, t, "rotate"], lambda: m.rotate_by(B.Pauli(G, PG)))
+                cur = O.rot_image(G, PG, cur[0], cur[1])
+                hist.append("rotate_by " + O.show(G, PG))
+            else:
+                og, op = O.random_map(rng, n)
+                ok, _ = rec.attempt("gate.live.map_history", [n, t, "transform"], lambda: m.transform_by(B.Map(og.copy(), op.copy())))
+                cur = O.map_image_list(og, op, cur[0], cur[1])
+                hist.append("transform_by")
+            if rng.integers(2):
+                rec.attempt("gate.live.map_history", [n, t, "inverse"], lambda: m.inverse())
+                hist.append("inverse()")
+        lg, lp = B.gsps(m)
+        if not (np.array_equal(lg, cur[0]) and np.array_equal(lp, cur[1] % 4)) or not O.map_valid(cur[0], cur[1]):
+            rec.check("gate.live.map_history", False, [n, t, hist], True, expected="in-place edits as C02/C03 dictate")
+            continue
+        for how in ("fmap", "bmap"):
+            for compiled in (False, True):
+                g = C.CliffordGate(*qubits)
+                (g.set_forward_map if how == "fmap" else g.set_backward_map)(m)
+                desc = {"N": N, "qubits": qubits, "how": how, "compiled": compiled, "map_history": hist,
+                        "map": [O.show(a, b) for a, b in zip(cur[0], cur[1])]}
+                if compiled:
+                    ok, _ = rec.attempt("gate.compile", desc, lambda: g.compile())
+                    if not ok:
+                        continue
+                for item in ins[:3]:
+                    roundtrip(rec, B, "gate.live.%s" % how, g, item, desc, True)
+                fmap = PR.spec_map({"kind": how, "mg": cur[0], "mp": cur[1], "qubits": qubits}, N)
+                _forward_value(rec, B, g, N, fmap, rng, desc)
+        # --- a rotation gate that has run in both directions gets another generator: through the setter, by writing the
+        #     attribute (what the library's own constructors do), or because the Pauli it holds is edited in place by its owner
+        G1, P1 = gen.rand_nonid(rng, n), 2 * int(rng.integers(2))
+        Pobj = B.Pauli(G1.copy(), P1)
+        g = C.CliffordGate(*qubits)
+        g.set_generator(Pobj)
+        desc = {"N": N, "qubits": qubits, "gen": O.show(G1, P1)}
+        roundtrip(rec, B, "gate.live.regen.first", g, ins[0], desc, True)
+        how = ("attr", "setter", "inplace", "neg")[t % 4]
+        if how == "inplace":
+            Q = gen.rand_nonid(rng, n)
+            for _ in range(50):
+                if O.anti(Q, G1):
+                    break
+                Q = gen.rand_nonid(rng, n)
+            if not O.anti(Q, G1):
+                how = "attr"
+            else:
+                ok, _ = rec.attempt("gate.live.regen.inplace", desc, lambda: Pobj.rotate_by(B.Pauli(Q.copy(), 0)))
+                G2, P2 = O.rot_image(Q, 0, G1[None, :], np.array([P1]))
+                G2, P2 = G2[0], int(P2[0])
+        if how in ("attr", "setter", "neg"):
+            if how == "neg":
+                G2, P2 = G1.copy(), (P1 + 2) % 4
+            else:
+                G2, P2 = gen.rand_nonid(rng, n), 2 * int(rng.integers(2))
+            if how == "setter":
+                g.set_generator(B.Pauli(G2.copy(), P2))
+            else:
+                g.generator = B.Pauli(G2.copy(), P2)
+        desc = dict(desc, regen=how, new=O.show(G2, P2))
+        for item in ins[:3]:
+            roundtrip(rec, B, "gate.live.regen.%s" % how, g, item, desc, True)
+        _forward_value(rec, B, g, N, PR.spec_map({"kind": "setgen", "G": G2, "PG": P2, "qubits": qubits}, N), rng, desc)
